@@ -32,21 +32,29 @@ theorem ta_source_shape_as_modelled :
     Shape.resolveDefer taGetBundle = Shape.modelGet false ∧
     Shape.resolveDefer taCurrent = Shape.modelGet true ∧
     Shape.follows .rlock .deferRUnlock taGetBundle = true ∧ Shape.follows .rlock .deferRUnlock taCurrent = true ∧
-    taWatch.filter Shape.isSync = Shape.modelWatch ∧ taWatch.getLast? = some .watchLoop := by
+    taWatch.filter Shape.isSync = Shape.modelWatch ∧ taWatch.getLast? = some .watchLoop ∧
+    -- defers run last-in-first-out: `wg.Wait()` (registered after `Unlock`) runs BEFORE `Unlock`, i.e. the
+    -- subscribers are awaited under the write lock — as in the model
+    Shape.before .deferUnlock .deferWgWait taUpdate = true ∧ Shape.before .deferWgWait .notifySubs taUpdate = true ∧
+    Shape.modelNotifiesUnderLock = true := by
   decide
 
 /-- **The bundle source never deadlocks, whatever the order of first calls.**  From every reachable
 state — any number of `GetX509BundleForTrustDomain`, `CurrentTrustAnchors(ctx)` and `Watch` callers,
 any interleaving with `Run`, reloads, file contents, cancellations — in which `readyCh` or `closeCh`
-is closed (the first load succeeded, or `Run` has ended for whatever reason), internal steps alone
+is closed (the first load succeeded, or `Run` has ended for whatever reason) and no `Watch`
+subscriber is stalled (hypothesis `subscribers_drain`: every subscriber's consumer keeps reading its
+channel — `updateAnchors` awaits the notifications while it holds the write lock; the witness
+`stalled_subscriber_blocks_readers` shows the hypothesis is needed), internal steps alone
 lead to a state where every call has returned (`Watch`: is registered); the same calls (same list
 length); a returned bundle is never nil, and "closed" is only reported when `closeCh` is closed. -/
-theorem bundle_source_no_deadlock {s : St} (hreach : Reach init s) (hup : s.ready = true ∨ s.closed = true) :
+theorem bundle_source_no_deadlock {s : St} (hreach : Reach init s) (hup : s.ready = true ∨ s.closed = true)
+    (subscribers_drain : s.subBlocked = false) :
     ∃ t, IntPath s t ∧ t.cons.length = s.cons.length ∧
       ∀ c ∈ t.cons, c = .sDone ∨ ∃ r, c = .bDone r ∧
         (∀ v, r = .ok v → v.isSome = true ∧ t.ready = true) ∧ (r = .closed → t.closed = true) := by
   have hi := inv_reach inv_init hreach
-  obtain ⟨t, hp, hall, hlen⟩ := progress (total s) s (Nat.le_refl _) hi hup
+  obtain ⟨t, hp, hall, hlen⟩ := progress (total s) s (Nat.le_refl _) hi hup subscribers_drain
   have hit := inv_reach inv_init (reach_of_intPath hreach hp)
   refine ⟨t, hp, hlen, ?_⟩
   intro c hc
@@ -67,6 +75,41 @@ first load behind the registering `Watch`. -/
 example : ∃ s, Reach init s ∧ s.run = .uWant false ∧ s.cons = [.bCall false, .bCall true, .sPend] ∧ s.wPend = true :=
   ⟨_, .tail (.cons 2) (.tail .run (.tail (.fileWrite (.ver 1)) (.tail .run (.tail .callRun (.tail .callWatch
     (.tail (.callBundle true) (.tail (.callBundle false) (.refl _) rfl) rfl) rfl) rfl) rfl) rfl) rfl) rfl, rfl, rfl, rfl⟩
+
+/-- A reload is waiting for a stalled subscriber while holding the write lock; a reader is past its
+select and wants the read lock. -/
+def stalledState : St :=
+  { running := true, wHeld := true, ready := true, bundle := some 2, file := .ver 2, subBlocked := true,
+    run := .uNotify true, cons := [.sDone, .bPassed] }
+
+/-- **Without `subscribers_drain` readers can block** (the boundary of the previous theorem, machine
+checked; behaviour of trustanchors outside C19's statement): the state is reachable — a registered
+`Watch` whose consumer stopped reading, then a file update, then a reader — `readyCh` is closed, and
+NO internal step is enabled: the reload waits for the subscriber under the write lock, the reader waits
+for the lock.  Only the environment (the subscriber drains, or Run's ctx ends) can release them. -/
+theorem stalled_subscriber_blocks_readers :
+    Reach init stalledState ∧ stalledState.ready = true ∧ stalledState.allReturned = false ∧
+    ∀ l, l.internal = true → step stalledState l = none := by
+  refine ⟨?_, rfl, rfl, ?_⟩
+  · exact .tail (.cons 1) (.tail (.callBundle false) (.tail .run (.tail .run (.tail .run (.tail .run
+      (.tail (.fileWrite (.ver 2)) (.tail .subStall (.tail (.cons 0) (.tail (.cons 0) (.tail (.cons 0) (.tail .callWatch
+      (.tail .run (.tail .run (.tail .run (.tail .run (.tail .run (.tail .run (.tail .run (.tail .run (.tail .run (.tail .run
+      (.tail .callRun (.tail (.fileWrite (.ver 1)) (.refl _) rfl) rfl) rfl) rfl) rfl) rfl) rfl) rfl) rfl) rfl) rfl) rfl)
+      rfl) rfl) rfl) rfl) rfl) rfl) rfl) rfl) rfl) rfl) rfl) rfl
+  · intro l hl
+    cases l with
+    | run => rfl
+    | cons i =>
+      match i with
+      | 0 => rfl
+      | 1 => rfl
+      | i + 2 => simp [step, consStep, stalledState]
+    | consClosed i =>
+      match i with
+      | 0 => rfl
+      | 1 => rfl
+      | i + 2 => simp [step, stalledState]
+    | _ => simp [Lbl.internal] at hl
 
 /-- **Every way `Run` ends releases the readers**: `closeCh` is closed exactly when `Run` has
 returned after winning the CAS (error or not: file never found, garbage content, watcher failure,
